@@ -1,7 +1,7 @@
 (* C03 — property theorems only.  Each is closed by [exact] of a lemma from Proofs.v and
    followed by Print Assumptions. *)
 From Coq Require Import List Bool Arith.
-From Falcon.C03 Require Import Model Spec Proofs.
+From Falcon.C03 Require Import Model Spec Styles Proofs.
 Import ListNotations.
 
 (* prepare_middleware accepts exactly the component lists in which every component defines a
@@ -49,6 +49,38 @@ Theorem C03_order_spec_constructor : forall asgi indep b0 a0 q st,
   run_request indep st q = spec_trace indep (batch_list b0) q.
 Proof. exact order_spec_constructor. Qed.
 Print Assumptions C03_order_spec_constructor.
+
+(* HOW the methods are defined on the component: util.get_bound_method (request-cycle methods)
+   accepts ordinary, class and inherited methods and RAISES AttributeError at construction for
+   a staticmethod / a function or callable object stored on the instance - never a silent skip;
+   lifespan handlers are found with hasattr() and take part whatever their style. *)
+Theorem C03_prepare_styled_ok : forall asgi indep cs st,
+  prepare_styled asgi indep cs = inl st <->
+  prepare_check asgi cs = None /\ prepare asgi indep (map sc_comp cs) = Some st.
+Proof. exact prepare_styled_ok. Qed.
+Print Assumptions C03_prepare_styled_ok.
+
+Theorem C03_prepare_check_complete : forall asgi indep cs,
+  prepare_check asgi cs = None -> exists st, prepare asgi indep (map sc_comp cs) = Some st.
+Proof. exact prepare_check_complete. Qed.
+Print Assumptions C03_prepare_check_complete.
+
+Theorem C03_unbound_is_attribute_error : forall asgi cs,
+  prepare_check asgi cs = Some PEAttributeError <->
+  exists pre c post, cs = pre ++ c :: post /\ comp_unbound c = true /\ prepare_check asgi pre = None.
+Proof. exact unbound_is_attribute_error. Qed.
+Print Assumptions C03_unbound_is_attribute_error.
+
+Theorem C03_order_spec_styled : forall asgi indep cs st q,
+  prepare_styled asgi indep cs = inl st ->
+  run_request indep st q = spec_trace indep (map sc_comp cs) q.
+Proof. exact order_spec_styled. Qed.
+Print Assumptions C03_order_spec_styled.
+
+Theorem C03_lifespan_styled_spec : forall cs msgs,
+  lifespan_styled cs msgs = spec_lifespan (map sc_comp cs) msgs.
+Proof. exact lifespan_styled_spec. Qed.
+Print Assumptions C03_lifespan_styled_spec.
 
 (* A tower of before/after decorators runs the before-hooks outermost first, the responder,
    then the after-hooks innermost first, stopping at the first raise. *)
